@@ -21,7 +21,15 @@ TYPES = [("sample.py", "python"), ("sample.c", "c"), ("sample.html", "html"), ("
 KINDS = ["empty", "code", "foreign", "ownheader", "owncon", "shebang", "comment"]
 
 
+DOT_TYPES = [("sample.png", None), ("data.json", None), ("blob.bin", None)]
+DOT_CONTENTS = [None, "Copyright (C) 2017 Mary Sue\n", "SPDX-FileCopyrightText: 2001 Old Dot Holder\n\nSPDX-License-Identifier: Zlib\n",
+                "(c) 2003 Plain Person\nCopyright 2004 Other Person\n"]
+
+
 def flavour_for(rnd: random.Random, sname: str, styles: dict) -> dict:
+    if sname is None:           # the header lives in the .license sibling throughout the history
+        x = rnd.random()
+        return {"template": "full"} if x < 0.2 else {"no_replace": True} if x < 0.3 else {}
     st = styles[sname]
     fl = {}
     x = rnd.random()
@@ -44,7 +52,8 @@ def run(ctx: core.Ctx) -> int:
     rnd = random.Random(ctx.seed)
     ctx.assumptions += [
         "options that redirect the header into a .license sibling are not part of the histories (a sibling shadows the "
-        "file's own header by specification)",
+        "file's own header by specification); files whose header ALWAYS lives in the sibling (uncommentable / binary / "
+        "unknown types with --fallback-dot-license) have histories of their own, with pre-existing sibling contents",
         "under a template that does not render contributors, contributor lines are not required to survive",
         "--skip-existing on a file that already declares something is a documented no-op",
     ]
@@ -79,6 +88,24 @@ def run(ctx: core.Ctx) -> int:
                           "steps": steps,
                           "label": anncases.label(file=fname, body=kind, history=[s["b"]["name"] for s in h],
                                                   flavours=[st["flavour"] for st in steps])})
+    # the same histories on files whose header always goes to FILE.license (sibling absent, or holding notices already)
+    for hi, h in enumerate(hists if not q else hists[::3]):
+        fname, _ = DOT_TYPES[hi % len(DOT_TYPES)]
+        dot = DOT_CONTENTS[(hi // 2) % len(DOT_CONTENTS)]
+        seed = f"{ctx.seed}|dot|{len(cases)}"
+        steps = []
+        for si, s in enumerate(h):
+            fl = flavour_for(random.Random(f"{seed}|{si}"), None, styles)
+            if fname == "blob.bin":
+                fl["dot"] = "fallback"
+            steps.append(anncases.step_of(s["b"], rnd, [fname], fl, must=True, pick_seed=f"{seed}|{s['b']['name']}"))
+        fdesc = {"name": fname, "kind": "binary" if fname != "data.json" else "code", "style_name": None, "eol": "\n",
+                 "unrecognised": fname == "blob.bin"}
+        if dot is not None:
+            fdesc["dotlicense"] = dot
+        cases.append({"tid": len(cases) + 1, "files": [fdesc], "steps": steps,
+                      "label": anncases.label(file=fname, body="sibling:" + ("absent" if dot is None else dot.split("\n")[0][:24]),
+                                              history=[s["b"]["name"] for s in h], flavours=[st["flavour"] for st in steps])})
     evl = ctx.pmap(annhist.run_history, cases, chunksize=8)
     events = [e for es in evl for e in es]
     for ev in [e for e in events if e["k"] >= 2][:: max(1, len(events) // 4)][:4]:
